@@ -792,6 +792,12 @@ func (m *Manager) configureTasks(envId uid.ID, tasks Tasks) error {
 		if respError != nil {
 			errText := respError.Error()
 			if len(strings.TrimSpace(errText)) != 0 {
+				// single-target response: the error of a non-critical task must not fail the transition either
+				if len(tasks) == 1 && !isCriticalTask(tasks[0]) {
+					log.WithField("partition", envId).
+						Warnf("%s could not complete for non-critical task, error: %s", event, errText)
+					return nil
+				}
 				return errors.New(response.Err().Error())
 			}
 			// FIXME: improve error handling ↑
@@ -799,6 +805,17 @@ func (m *Manager) configureTasks(envId uid.ID, tasks Tasks) error {
 	}
 
 	return nil
+}
+
+// isCriticalTask applies the same criticality rule used for multi-target responses
+func isCriticalTask(task *Task) bool {
+	if task == nil {
+		return false
+	}
+	if task.GetTraits().Critical {
+		return true
+	}
+	return task.parent != nil && task.parent.GetTaskTraits().Critical
 }
 
 func (m *Manager) transitionTasks(envId uid.ID, tasks Tasks, src string, event string, dest string, commonArgs controlcommands.PropertyMap) error {
@@ -872,6 +889,12 @@ func (m *Manager) transitionTasks(envId uid.ID, tasks Tasks, src string, event s
 		if respError != nil {
 			errText := respError.Error()
 			if len(strings.TrimSpace(errText)) != 0 {
+				// single-target response: the error of a non-critical task must not fail the transition either
+				if len(tasks) == 1 && !isCriticalTask(tasks[0]) {
+					log.WithField("partition", envId).
+						Warnf("%s could not complete for non-critical task, error: %s", event, errText)
+					return nil
+				}
 				return errors.New(response.Err().Error())
 			}
 			// FIXME: improve error handling ↑
